@@ -235,6 +235,28 @@ func Build(entries []Entry, vars map[string]string) ([]byte, error) {
 	return Gzip(t), nil
 }
 
+// BuildSplit renders the entries as a gzip stream of two members: the tar
+// stream is cut in front of entry number k (0 < k < len(entries)) and each half
+// is compressed on its own. Readers of gzip treat the concatenation as one stream.
+func BuildSplit(entries []Entry, vars map[string]string, k int) ([]byte, error) {
+	whole, err := BuildTar(entries, vars)
+	if err != nil {
+		return nil, err
+	}
+	if k <= 0 || k >= len(entries) {
+		return Gzip(whole), nil
+	}
+	head, err := BuildTar(entries[:k], vars)
+	if err != nil {
+		return nil, err
+	}
+	cut := len(head) - 1024 // without the end-of-archive marker
+	if cut <= 0 || cut > len(whole) || !bytes.Equal(head[:cut], whole[:cut]) {
+		return Gzip(whole), nil
+	}
+	return append(Gzip(whole[:cut]), Gzip(whole[cut:])...), nil
+}
+
 // Decoded is one member read back from a slug.
 type Decoded struct {
 	Name     string `json:"name"`
